@@ -188,11 +188,12 @@ Theorem push_clone_ok c v u xs bs t0 k :
     push_unchecked c (VClone bs k) (v, u) = Ok tt (v', u') /\
     Rep c v' (xs ++ [n]) /\ vbk v' = vbk v /\
     unext u' = unext u + 1 /\ ufuse u' = None /\
-    uevents u' = EClone t0 n :: uevents u.
+    uevents u' = EClone t0 n :: uevents u /\
+    (vlen v < vcap v -> vcap v' = vcap v /\ vgen v' = vgen v).
 Proof.
   intros Hwf HR Hd Hf Hg n.
   destruct (reserve_one_ok c v u xs Hwf HR Hg)
-    as (v1 & u1 & E1 & HR1 & Hlt & Hl & Hbk & (Hsn & Hsf & Hse) & _).
+    as (v1 & u1 & E1 & HR1 & Hlt & Hl & Hbk & (Hsn & Hsf & Hse) & Hsame).
   unfold push_unchecked. bstep E1.
   assert (Eg : getv (v1, u1) = Ok v1 (v1, u1)) by reflexivity. bstep Eg.
   cbn [write_value].
@@ -204,7 +205,7 @@ Proof.
   assert (Ec := clone_into_ok c bs t0 (bo c (vlen v1)) v1 u1 u1 Hd (tick_none _ Hf1) Hst Hb).
   bstep Ec. unfold setv. cbn [fst snd].
   eexists _, _. split; [reflexivity|].
-  split; [|split; [|split; [|split]]].
+  split; [|split; [|split; [|split; [|split]]]].
   - unfold n. rewrite <- Hsn.
     eapply push_rep; [exact HR1|exact Hlt|apply fresh_tok_ok|reflexivity|reflexivity|reflexivity].
   - cbn [with_len with_mem vbk]. exact Hbk.
@@ -212,6 +213,7 @@ Proof.
   - cbn [cloned_uw ufuse]. exact Hf1.
   - unfold uevents in *. cbn [cloned_uw ulog filter is_user_event]. rewrite Hse.
     unfold n. rewrite Hsn. reflexivity.
+  - intros Hroom. destruct (Hsame Hroom) as [-> _]. cbn [with_len with_mem vcap vgen]. auto.
 Qed.
 
 (** the steps of [insert_unchecked] up to the write of the value *)
@@ -220,6 +222,7 @@ Lemma insert_prefix_run c v u xs i s :
   (vlen v < vcap v \/ grow_ok c v (vcap v + 1)) ->
   exists v1 u1,
     Rep c v1 xs /\ vlen v1 < vcap v1 /\ vlen v1 = vlen v /\ vbk v1 = vbk v /\ same_user u u1 /\
+    (vlen v < vcap v -> v1 = v) /\
     let vs := with_mem (memmove (i * szn c) (i * szn c + szn c) ((length xs - i) * szn c) (vmem v1))
                 (with_len (N.of_nat i) v1) in
     store_ok c vs /\
@@ -227,9 +230,9 @@ Lemma insert_prefix_run c v u xs i s :
     = (write_value c (i * szn c) s;; setv (with_len (vlen v + 1))) (vs, u1).
 Proof.
   intros Hwf HR Hi Hg.
-  destruct (reserve_one_ok c v u xs Hwf HR Hg) as (v1 & u1 & E1 & HR1 & Hlt & Hl & Hbk & Hsu & _).
+  destruct (reserve_one_ok c v u xs Hwf HR Hg) as (v1 & u1 & E1 & HR1 & Hlt & Hl & Hbk & Hsu & Hsame).
   exists v1, u1. split; [exact HR1|]. split; [exact Hlt|]. split; [exact Hl|].
-  split; [exact Hbk|]. split; [exact Hsu|].
+  split; [exact Hbk|]. split; [exact Hsu|]. split; [intros Hroom; exact (proj1 (Hsame Hroom))|].
   pose proof (rep_len _ _ _ HR) as Hlenv.
   destruct HR1 as [Hlen Hcap Hus Hst Hmem Htok].
   assert (Hn : N.to_nat (c_sz c * (vlen v - N.of_nat i)) = ((length xs - i) * szn c)%nat).
@@ -262,11 +265,12 @@ Theorem insert_clone_ok c v u xs bs t0 k i :
     insert_unchecked c (N.of_nat i) (VClone bs k) (v, u) = Ok tt (v', u') /\
     Rep c v' (sp_insert i n xs) /\ vbk v' = vbk v /\
     unext u' = unext u + 1 /\ ufuse u' = None /\
-    uevents u' = EClone t0 n :: uevents u.
+    uevents u' = EClone t0 n :: uevents u /\
+    (vlen v < vcap v -> vcap v' = vcap v /\ vgen v' = vgen v).
 Proof.
   intros Hwf HR Hd Hf Hi Hg n.
   destruct (insert_prefix_run c v u xs i (VClone bs k) Hwf HR Hi Hg)
-    as (v1 & u1 & HR1 & Hlt & Hl & Hbk & (Hsn & Hsf & Hse) & Hvs).
+    as (v1 & u1 & HR1 & Hlt & Hl & Hbk & (Hsn & Hsf & Hse) & Hsame & Hvs).
   cbv zeta in Hvs. destruct Hvs as [Hsts E]. rewrite E. clear E.
   cbn [write_value].
   assert (Hf1 : ufuse u1 = None) by congruence.
@@ -277,7 +281,7 @@ Proof.
   assert (Ec := clone_into_ok c bs t0 (i * szn c) vs u1 u1 Hd (tick_none _ Hf1) Hsts Hb).
   bstep Ec. unfold setv. cbn [fst snd].
   eexists _, _. split; [reflexivity|].
-  split; [|split; [|split; [|split]]].
+  split; [|split; [|split; [|split; [|split]]]].
   - unfold n. rewrite <- Hsn.
     eapply insert_rep; [exact HR1|exact Hlt|apply fresh_tok_ok|exact Hi| | |].
     + cbn [with_len vlen]. rewrite Hl. reflexivity.
@@ -288,6 +292,7 @@ Proof.
   - cbn [cloned_uw ufuse]. exact Hf1.
   - unfold uevents in *. cbn [cloned_uw ulog filter is_user_event]. rewrite Hse.
     unfold n. rewrite Hsn. reflexivity.
+  - intros Hroom. unfold vs. rewrite (Hsame Hroom). cbn [with_len with_mem vcap vgen]. auto.
 Qed.
 
 (** a Clone that panics inside push: the vector is unchanged (apart from a possible
@@ -323,7 +328,7 @@ Theorem insert_clone_panics c v u xs bs t0 k i :
 Proof.
   intros Hwf HR Hd Hf Hi Hg.
   destruct (insert_prefix_run c v u xs i (VClone bs k) Hwf HR Hi Hg)
-    as (v1 & u1 & HR1 & Hlt & Hl & Hbk & (Hsn & Hsf & Hse) & Hvs).
+    as (v1 & u1 & HR1 & Hlt & Hl & Hbk & (Hsn & Hsf & Hse) & Hsame & Hvs).
   cbv zeta in Hvs. destruct Hvs as [Hsts E]. rewrite E. clear E.
   cbn [write_value].
   assert (Hf1 : ufuse u1 = Some 0) by congruence.
